@@ -28,19 +28,24 @@ from ..model import own_nodes
 
 
 def locate(model):
-    """Anchors inside render_blocks_: the condition loop (a while whose body
-    takes the current condition from the block tuple and re-enters
-    render_blocks_), its enclosing try, the cache push, the namespace name,
-    the cache variable, the current-condition variable."""
-    fi = model.func('_DocumentTemplate', 'render_blocks_')
-    loop = condvar = None
-    for n in own_nodes(fi.node):
-        if isinstance(n, ast.While):
+    """Anchors of the conditional interpreter: the condition loop (a while /
+    for whose body takes the current condition from the block tuple and
+    evaluates it in the namespace), its enclosing try, the cache push, the
+    namespace name, the cache variable, the current-condition variable.
+    The loop may live in render_blocks_ or in a helper of the same module."""
+    mod = model.module('_DocumentTemplate')
+    found = None
+    for fi in mod.funcs.values():
+        for n in own_nodes(fi.node):
+            if not isinstance(n, (ast.While, ast.For)):
+                continue
             cv = None
             for s in n.body:
                 if isinstance(s, ast.Assign) and \
                         isinstance(s.value, ast.Subscript) and \
-                        isinstance(s.targets[0], ast.Name):
+                        isinstance(s.targets[0], ast.Name) and \
+                        not (isinstance(s.value.slice, ast.Name) and
+                             s.value.slice.id == s.targets[0].id):
                     cv = s.targets[0].id
                     break
             evals = cv and any(
@@ -50,16 +55,16 @@ def locate(model):
                  isinstance(c.slice, ast.Name) and c.slice.id == cv)
                 for c in ast.walk(n))
             if cv and evals:
-                loop, condvar = n, cv
-    if loop is None:
-        raise AnalysisError('render_blocks_: condition loop not found')
-    # the branch body (statement list) that holds the loop, directly or
-    # inside a try
+                found = (fi, n, cv)
+    if found is None:
+        raise AnalysisError('conditional interpreter: condition loop not '
+                            'found')
+    fi, loop, condvar = found
     tr = None
     for a in ancestors(loop):
         if isinstance(a, ast.Try) and tr is None:
             tr = a
-        if isinstance(a, ast.For):
+        if isinstance(a, (ast.For, ast.FunctionDef)) and a is not loop:
             break
     top = tr if tr is not None else loop
     holder = top._dt_parent
@@ -69,7 +74,7 @@ def locate(model):
         if isinstance(lst, list) and top in lst:
             block = lst
     if block is None:
-        raise AnalysisError('render_blocks_: conditional branch not found')
+        raise AnalysisError('conditional interpreter: branch not found')
     pushes = []
     for st in block:
         for n in ast.walk(st):
@@ -79,14 +84,16 @@ def locate(model):
                     isinstance(n.args[0], ast.Name):
                 pushes.append((st, n))
     if not pushes:
-        raise AnalysisError('render_blocks_: cache push not found')
+        raise AnalysisError('conditional interpreter: cache push not found')
     stmt, push = pushes[0]
+    renderers = {f.name for f in mod.funcs.values()
+                 if f.name.startswith('render_blocks')} | {fi.name}
     return dict(fi=fi, push=push, push_stmt=stmt, block=block,
                 tr=tr if tr is not None else ast.Try(
                     body=[loop], handlers=[], orelse=[], finalbody=[]),
                 loop=loop, md=norm(push.func.value),
                 cache=push.args[0].id, cond=condvar, top=top,
-                has_try=tr is not None)
+                has_try=tr is not None, renderers=renderers)
 
 
 class CS(BaseState):
@@ -132,19 +139,35 @@ class CondDomain(Domain):
                                  for d in inits):
                     self.counters.add(n.target.id)
 
+    def cond_names(self):
+        a = self.a
+        names = a.get('_cond_names')
+        if names is None:
+            names = {a['cond']}
+            for n in ast.walk(a['loop']):
+                if isinstance(n, ast.Assign) and \
+                        isinstance(n.value, ast.Name) and \
+                        n.value.id in names and \
+                        isinstance(n.targets[0], ast.Name):
+                    names.add(n.targets[0].id)
+            a['_cond_names'] = names
+        return names
+
     def is_eval(self, n):
         a = self.a
+        names = self.cond_names()
         if isinstance(n, ast.Subscript) and norm(n.value) == a['md'] and \
-                isinstance(n.slice, ast.Name) and n.slice.id == a['cond']:
+                isinstance(n.slice, ast.Name) and n.slice.id in names and \
+                isinstance(n.ctx, ast.Load):
             return True
         if isinstance(n, ast.Call) and isinstance(n.func, ast.Name) and \
-                n.func.id == a['cond']:
+                n.func.id in names:
             return True
         return False
 
     def is_render(self, n):
         return isinstance(n, ast.Call) and isinstance(n.func, ast.Name) and \
-            n.func.id == self.a['fi'].name
+            n.func.id in self.a['renderers'] and len(n.args) >= 3
 
     def raises(self, node, st):
         for n in ast.walk(node):
@@ -176,18 +199,16 @@ class CondDomain(Domain):
         if isinstance(stmt, ast.Assign):
             t = stmt.targets[0]
             if isinstance(t, ast.Subscript) and \
-                    norm(t.value) == self.a['cache'] and \
-                    isinstance(stmt.value, ast.Name) and \
-                    stmt.value.id == self.a['cond']:
+                    norm(t.value) == self.a['cache']:
                 ns = ns.copy()
                 ns.stored = True
-            if isinstance(t, ast.Name) and t.id == self.a['cond']:
+            if isinstance(t, ast.Name):
                 falsy = isinstance(stmt.value, ast.Constant) and \
                     not stmt.value.value
-                if falsy != ('#condfalse' in ns.neg):
+                tag = 'F:' + t.id
+                if falsy != (tag in ns.neg):
                     ns = ns.copy()
-                    ns.neg = (ns.neg | {'#condfalse'}) if falsy else \
-                        (ns.neg - {'#condfalse'})
+                    ns.neg = (ns.neg | {tag}) if falsy else (ns.neg - {tag})
             if isinstance(t, ast.Name):
                 v = stmt.value
                 neg = isinstance(v, ast.UnaryOp) and \
@@ -221,8 +242,7 @@ class CondDomain(Domain):
             f = st.copy()
             f.named = False
             return [(True, t), (False, f)]
-        if isinstance(test, ast.Name) and test.id == self.a['cond'] and \
-                '#condfalse' in st.neg:
+        if isinstance(test, ast.Name) and ('F:' + test.id) in st.neg:
             return [(False, st)]
         if isinstance(test, ast.Compare) and len(test.ops) == 1 and \
                 isinstance(test.ops[0], ast.Eq):
@@ -257,9 +277,7 @@ def rule_eval(model):
             dom.problems.append((loop, 'an iteration can finish having '
                                  f'evaluated its condition {o.state.evals} '
                                  'times'))
-    # statements after the loop (else rendering) from the break states
-    after = []
-    tr = a['tr']
+    # statements after the loop: `orelse` runs only when no break happened
     holder = loop._dt_parent
     lst = None
     for fld in ('body', 'orelse', 'finalbody'):
@@ -269,24 +287,25 @@ def rule_eval(model):
     rest = lst[lst.index(loop) + 1:] if lst else []
     dom2 = CondDomain(model, a)
     it2 = Interp(dom2)
-    else_renders = 0
     for o in outs:
         if o.kind == 'break':
             s = o.state.copy()
             s.evals = 1          # do not re-judge counts after the loop
             before = dom2.body_renders
-            res = it2.block(rest, s)
+            it2.block(rest, s)
             if dom2.body_renders > before and o.state.rendered:
                 dom.problems.append((rest[0] if rest else loop,
                                      'the else body can be rendered after a '
                                      'condition was true'))
-    # the else body must be renderable at all from the loop's normal exit
+    # the else body must be renderable from the loop's normal exit
     s0 = CS()
     s0.evals = 1
     dom3 = CondDomain(model, a)
-    Interp(dom3).block(rest, s0)
+    Interp(dom3).block(list(loop.orelse) + rest, s0)
     else_renders = dom3.body_renders
-    r1.instance(fi.where, f'while {norm(loop.test)}',
+    head = f'while {norm(loop.test)}' if isinstance(loop, ast.While) \
+        else f'for {norm(loop.target)} in {norm(loop.iter)}'
+    r1.instance(fi.where, head,
                 paths_per_iteration=n_paths,
                 body_render_sites=dom.body_renders,
                 else_render_sites=else_renders)
@@ -300,14 +319,15 @@ def rule_eval(model):
         if (msg, norm(node)) in seen:
             continue
         seen.add((msg, norm(node)))
-        rr.finding(fi.where, node if not isinstance(node, ast.While)
-                   else f'while {norm(node.test)}', msg, node=node, ctx=fi)
+        rr.finding(fi.where, node if not isinstance(node, (ast.While,
+                                                            ast.For))
+                   else head, msg, node=node, ctx=fi)
     # evaluation sites outside the loop
     for n in ast.walk(a['tr']):
         if dom.is_eval(n) and not any(x is loop for x in ancestors(n)):
             r1.finding(fi.where, n, 'condition evaluated outside the '
                        'condition loop', node=n, ctx=fi)
-    r1.require_floor(3)
+    r1.require_floor(2)
 
     # R2 structural part: cache created per conditional, pushed before loop
     cache = a['cache']
@@ -394,9 +414,15 @@ def rule_keyerror(model):
                 r.finding(fi.where, f'except {hn}', 'a KeyError for a '
                           'different key (raised inside the looked-up '
                           'value) is not re-raised', node=h, ctx=fi)
+            # the variable the lookup assigns gets a false constant
+            tv = None
+            for x in ast.walk(t.body[0]):
+                if isinstance(x, ast.Assign) and \
+                        isinstance(x.targets[0], ast.Name):
+                    tv = x.targets[0].id
             falsy = [x for x in ast.walk(h) if isinstance(x, ast.Assign)
                      and isinstance(x.targets[0], ast.Name)
-                     and x.targets[0].id == a['cond']
+                     and x.targets[0].id == tv
                      and isinstance(x.value, ast.Constant)
                      and not x.value.value]
             if not falsy:
@@ -413,10 +439,16 @@ def rule_keyerror(model):
     return r
 
 
-def _kind(e, fi, model):
+def _kind(e, fi, model, _depth=0):
     """C condition / B block list / N None / X other"""
     if isinstance(e, ast.Constant) and e.value is None:
         return 'N'
+    if isinstance(e, ast.IfExp) and _depth < 3:
+        ks = {_kind(e.body, fi, model, _depth + 1),
+              _kind(e.orelse, fi, model, _depth + 1)}
+        return ks.pop() if len(ks) == 1 else 'X'
+    if isinstance(e, ast.Attribute) and e.attr == 'eval':
+        return 'C'
     if isinstance(e, ast.Attribute) and e.attr == 'blocks':
         return 'B'
     if isinstance(e, ast.Name):
@@ -432,6 +464,8 @@ def _kind(e, fi, model):
                 kinds.add('N')
             elif isinstance(d, tuple) and d[0] == 'unpack':
                 kinds.add('C')
+            elif isinstance(d, ast.IfExp):
+                kinds.add(_kind(d, fi, model, _depth + 1))
             else:
                 kinds.add('X')
         if kinds <= {'C'}:
@@ -454,6 +488,19 @@ def rule_shapes(model):
                     isinstance(t, ast.Attribute) and t.attr == 'simple_form'
                     for t in n.targets):
                 v = n.value
+                if isinstance(v, ast.Tuple) and len(v.elts) == 2 and \
+                        isinstance(v.elts[0], ast.Constant) and \
+                        isinstance(v.elts[1], ast.Starred):
+                    # ('i', *sections)  ==  ('i',) + tuple(sections)
+                    v = ast.BinOp(
+                        left=ast.Tuple(elts=[v.elts[0]], ctx=ast.Load()),
+                        op=ast.Add(),
+                        right=ast.Call(func=ast.Name(id='tuple',
+                                                     ctx=ast.Load()),
+                                       args=[v.elts[1].value],
+                                       keywords=[]))
+                    ast.copy_location(v, n.value)
+                    ast.fix_missing_locations(v)
                 if isinstance(v, ast.Tuple) and v.elts and \
                         isinstance(v.elts[0], ast.Constant):
                     op = v.elts[0].value
@@ -588,6 +635,13 @@ def _seq_of_stmt(model, fi, st, lst):
             isinstance(st.value.func.value, ast.Name) and \
             st.value.func.value.id == lst:
         return _kind(st.value.args[0], fi, model)
+    if isinstance(st, ast.Expr) and isinstance(st.value, ast.Call) and \
+            isinstance(st.value.func, ast.Attribute) and \
+            st.value.func.attr == 'extend' and \
+            isinstance(st.value.func.value, ast.Name) and \
+            st.value.func.value.id == lst and st.value.args and \
+            isinstance(st.value.args[0], (ast.Tuple, ast.List)):
+        return ''.join(_kind(e, fi, model) for e in st.value.args[0].elts)
     if isinstance(st, ast.For):
         inner = ''.join(_seq_of_stmt(model, fi, s, lst) for s in st.body)
         return f'({inner})*' if inner else ''
